@@ -153,6 +153,29 @@ func c08Faults() []fault {
 			return one(mon.SetUpdate(t, k(a), attr, v))
 		})
 	}
+	// 3b the SORT key attribute of an index with a wrong type on an item that LACKS the index's hash key: the item
+	// would not be indexed, the attribute still has to have its declared type
+	add("index-sort-key-type-without-hash/put-new", func(r *rand.Rand, t string, p, a val.Item) []adapt.Op {
+		it := ixItem(a["h"].Str, a["r"].Str, "", "9", 61)
+		it["s"] = val.Num("7")
+		return one(adapt.Op{Kind: adapt.OpPut, Table: t, Item: it})
+	})
+	add("index-sort-key-type-without-hash/put-overwrite", func(r *rand.Rand, t string, p, a val.Item) []adapt.Op {
+		it := ixItem(p["h"].Str, p["r"].Str, "", "9", 62)
+		it["s"] = val.SS("q")
+		return one(adapt.Op{Kind: adapt.OpPut, Table: t, Item: it})
+	})
+	add("index-sort-key-type-without-hash/update", func(r *rand.Rand, t string, p, a val.Item) []adapt.Op {
+		return one(rawUpdate(t, k(p), "REMOVE g SET s = :n", nil, val.Item{":n": val.Num("7")}))
+	})
+	add("index-sort-key-type-without-hash/update-upsert", func(r *rand.Rand, t string, p, a val.Item) []adapt.Op {
+		return one(mon.SetUpdate(t, k(a), "s", val.Bool(true)))
+	})
+	add("index-sort-key-type-without-hash/batchwrite", func(r *rand.Rand, t string, p, a val.Item) []adapt.Op {
+		it := ixItem(a["h"].Str, a["r"].Str, "", "9", 63)
+		it["s"] = val.Num("7")
+		return one(adapt.Op{Kind: adapt.OpBatchWrite, Batch: []adapt.BatchEntry{{Table: t, Put: ixItem(a["h"].Str, "zz", "x", "1", 64)}, {Table: t, Put: it}}})
+	})
 	// 4 placeholders
 	add("placeholder-unused-value/put", func(r *rand.Rand, t string, p, a val.Item) []adapt.Op {
 		return one(rawCond(adapt.Op{Kind: adapt.OpPut, Table: t, Item: ixItem(p["h"].Str, p["r"].Str, "y", "9", 77)}, "attribute_exists(h)", nil, val.Item{":unused": val.Str("x")}))
